@@ -148,6 +148,10 @@ def plan(tier, seed):
         for f in ('a', 'B', '.', '*a', 'a?', '~*', 'b*.', '?'):
             for w in ('ab', 'AB', 'a.b', 'b*a', 'xxb.'):
                 yield {'f': f, 'w': w}
+        # a backslash in front of a wildcard / of a letter Python would read as an escape, in texts written in the formula
+        for f, w in (('\\\\?', 'ab\\\\x'), ('\\n*', 'a\\nb'), ('?\\t', 'ab\\tc'), ('\\\\*', 'x\\\\'), ('\\?', 'a\\b'), ('*\\x41', 'a\\x41'),
+                     ('\\u0041?', 'z\\u0041b')):
+            yield {'f': f, 'w': w}
 
     def concat_cases():
         n = len(CONCAT_VALUES)
